@@ -214,13 +214,27 @@ TEXT = {
           "branches were committed and popped on the way (same_history_same_obs); the undo patch recorded at commit "
           "restores the previous state for every key (rollback_exact), popping a whole branch returns to the fork "
           "point (branch_switch); tied to ldbManager by the pop-heavy vdb stream with views opened before the switch "
-          "and re-read after it.",
+          "and re-read after it. The other two stateful components have their own model (Model/NodeCache.lean, "
+          "Props/C06Node.lean): for every sequence of momentum inserts, rollbacks of any depth and queries at any time, "
+          "the period-point reader and the election lookup answer what a node that only ever saw the current chain answers "
+          "(points_no_trace, election_no_trace; invariant: every stored entry is what a computation from scratch gives on the "
+          "chain its end/proof hash names — it does not mention the node's chain, which is why the delete events do nothing), "
+          "the epoch reader for every epoch finished on the current chain (epoch_points_no_trace); the end-hash comparison is "
+          "necessary (points_without_endhash_check_stale: the seeded readers serve the abandoned branch's producer); after "
+          "any interleaving of readers with RollbackTo every pool manager was built from the ledger as it is now and every "
+          "pooled block acknowledges a momentum of the current chain (pool_no_trace), which fails for notify-before-pop and "
+          "for a partial drop (two witnesses); the shape of GetPoint / generateProducers / RollbackTo / DeleteMomentum in the "
+          "working tree is regenerated from the AST and pinned by theorems; tied to real nodes by the nc- lines of "
+          "sync-batches (complete consensus database, served/recomputed classification, momentums per pillar).",
   "design_ref": "§3 C06",
   "note": "Observational, not raw, equality (tombstones of created keys remain in the raw frontier — witness example — and "
           "are skipped by every iterator since 522bff7: a regression shows as a listed-but-absent key in the vdb scan monitor "
           "and as F22 in the ledger stream); "
-          "pool and consensus-statistics clauses are correspondence only.",
-  "technique": "Lean 4 proof (invariant over reachable manager states) + differential correspondence on op sequences",
+          "the consensus and pool theorems are over an arbitrary specification of the computed values under the hash-chaining "
+          "hypothesis ChainWF; the statistics of an UNFINISHED epoch right after a rollback to its last momentum keep a trace "
+          "(known finding FX1, proved as a witness and reproduced); pool block content and fork rules are C14's model.",
+  "technique": "Lean 4 proof (invariant over reachable manager states; cache invariant keyed by hash over reachable node states; "
+               "negative witnesses by evaluation) + regenerated AST facts + differential correspondence on op sequences",
  },
  "C05": {
   "text": "Kernel-checked theorems over Go-faithful models: SelectProducers for any sorting algorithm and any rand.Perm "
